@@ -422,6 +422,17 @@ class SchedulerPair(object):
             c._unschedule_completed = self.gate.wrap('completed',
                                        c._unschedule_completed, (False, False))
 
+        # completed passes of the scheduling loop (each pass starts with
+        # `_schedule_incoming`): idleness of the loop is decided in passes
+        self.passes = 0
+        inner = self.child._schedule_incoming
+        def counted(*a, **k):
+            try:
+                return inner(*a, **k)
+            finally:
+                self.passes += 1
+        self.child._schedule_incoming = counted
+
     def _fork(self, parent):
         child = copy.copy(parent)
         for k, v in list(parent.__dict__.items()):
